@@ -988,6 +988,28 @@ def rule_r20(repo, run, T):
 
 
 
+def rule_r21(repo, run, T):
+    R = run.rule("C03.R21", "a helper that fills a caller's fixed-size char array (`char *in, Py_ssize_t insize`) copies with the size "
+                            "of the array: strncpy(dst, src, size) clears what the previous, longer content left behind, a shorter "
+                            "count does not")
+    helpers = T["helpers"]
+    n = 0
+    for name, h in sorted(helpers.c.items()):
+        for key, text in tables.helper_sources(h):
+            flat = re.sub(r"\s+", " ", text)
+            for c in re.finditer(r"strncpy\s*\(\s*([A-Za-z_]\w*)\s*,\s*(.+?),\s*([^,()]+)\)\s*;", flat):
+                dst, count = c.group(1).strip(), c.group(3).strip()
+                size = dst + "size"
+                if not re.search(r"\b%s\b" % re.escape(size), flat):
+                    continue      # not a (pointer, size) pair of parameters
+                n += 1
+                terminated = re.search(r"%s\s*\[\s*%s[^\]]*\]\s*=\s*'\\0'" % (re.escape(dst), re.escape(count)), flat) is not None
+                run.check(R, "whelpers.CHelpers[%s].%s:strncpy(%s, ..., %s)" % (name, key, dst, count), count == size or terminated,
+                          "the caller's array `%s` (size `%s`) is filled with strncpy(..., %s): nothing behind the copied characters is "
+                          "written - no terminator, and `r.name = \"xy\"` after `\"abcdefgh\"` reads \"xycdefgh\"" % (dst, size, count), "")
+    run.floor(R, "strncpy into a caller's sized array", n, 1)
+
+
 def run(repo, run, tier):
     tables.check_model_assumptions(repo)
     T = dict(py=tables.StatementTable(repo, "wrapp", "py_statements"),
@@ -1013,4 +1035,5 @@ def run(repo, run, tier):
     rule_r18(repo, run, T)
     rule_r19(repo, run, T)
     rule_r20(repo, run, T)
+    rule_r21(repo, run, T)
     run.assumptions.append("LP64 sizes; CPython PyArg_Parse / Py_BuildValue unit table in the checker")
